@@ -40,6 +40,9 @@ var c20Kinds = []c20Kind{
 	{Name: "failing-layer", Arg: "bad.yaml", Fails: true},
 	{Name: "toml-stream", Arg: "s.toml", Resolves: true, Format: "toml", Want: `[{"k":1},{"k":2}]`},
 	{Name: "missing.yaml", Arg: "nope.yaml"},
+	{Name: "empty-arg", Arg: ""},
+	{Name: "arg-with-space-tab-unicode", Arg: "two words\tna\u00efve=\u00e9"},
+	{Name: "double-dash", Arg: "--"},
 	{Name: "yml-layer", Arg: "y.z.yml", Resolves: true, Format: "yml", Want: `[{"p":1,"q":2}]`},
 	{Name: "virtual-of-yml", Arg: "y.z.toml", Resolves: true, Format: "toml", Want: `[{"p":1,"q":2}]`},
 	{Name: "json-layer-as-yaml", Arg: "j.yaml", Resolves: true, Format: "yaml", Want: `[{"j":[1,"x"]}]`},
@@ -280,7 +283,7 @@ func buildC20(tier string) *core.Plan {
 		Run:  func(c *core.Ctx, i int64) { c20Run(c, invs[i%2], all[i/2]) }}
 	return &core.Plan{
 		Spaces: []core.Space{sp},
-		Rule: "every argument vector of length 0..max over 15 argument kinds (short flag, --opt=value, --opt=file.yaml, word, -, existing non-bkl file, existing layer file, virtual name of another format, unsupported extension, layer whose evaluation fails, multi-document layer requested as TOML, missing .yaml name), " +
+		Rule: "every argument vector of length 0..max over 18 argument kinds (short flag, --opt=value, --opt=file.yaml, word, -, existing non-bkl file, existing layer file, virtual name of another format, unsupported extension, layer whose evaluation fails, multi-document layer requested as TOML, missing .yaml name), " +
 			"and vectors of length 5-8 of flags with one (thorough: two) non-flag argument(s) at every position; each invoked as recb (symlink to bklb) and as kubectl-bkl, with a recording stand-in on PATH",
 		Assumptions: []string{"the stand-in records argv and the content of every argument naming a regular file; file-argument content is parsed with encoding/json, yaml.v3 and go-toml called directly and compared with the known evaluated layers"},
 		Bounds:      map[string]any{"max_len_full": maxLen, "vectors": len(all), "kinds": nk},
